@@ -397,3 +397,65 @@ def noise_cover(ctx) -> None:
            "every noise type of the model not in _NON_LINDBLADIAN_NOISE is sent to get_lindblad_operators"
            if verdict else "the comprehension over noise_model.noise_types does not filter with "
                            "`not in _NON_LINDBLADIAN_NOISE`")
+
+
+# -------------------------------------------------------------- required rejections
+def _len_eq_one(c, t) -> bool:
+    c = strip_typed(c)
+    if c[0] != "cmp" or c[1] != "==" or t is not False:
+        return False
+    a, b = strip_typed(c[2]), strip_typed(c[3])
+    if b[0] == "call" and b[1] == "len":
+        a, b = b, a
+    return a[0] == "call" and a[1] == "len" and b == ("const", 1) and "to_nested_dict" in show(a)
+
+
+REJECTIONS = [
+    # (function, class or None, label, predicate over (last decided condition, its truth, whole path), consequence)
+    ("emu_base.pulser_adapter._extract_omega_delta_phi", None, "more than one interaction basis in the samples",
+     lambda c, t, p: _len_eq_one(c, t),
+     "a sequence addressing two bases at once (e.g. ground-rydberg and digital/XY) is emulated from the first matching "
+     "basis only"),
+    ("emu_base.pulser_adapter._extract_omega_delta_phi", None, "drive samples with an imaginary part",
+     lambda c, t, p: "allclose(" in show(c) and ".imag" in show(c) and t is False,
+     "complex-valued samples are silently truncated to their real part"),
+    ("emu_mps.mps.MPS.sample", "emu_mps.mps.MPS", "false-positive readout errors with more than two levels",
+     lambda c, t, p: "self.dim" in show(c) and strip_typed(c)[0] == "cmp" and strip_typed(c)[1] == ">" and t is True
+     and any("p_false_pos" in show(c2) and t2 for c2, t2 in p.cond_log),
+     "readout errors are applied to bitstrings of 3-level atoms although that is not implemented"),
+    ("emu_mps.mps_backend_impl.MPSBackendImpl.__init__", "emu_mps.mps_backend_impl.MPSBackendImpl", "fewer than two atoms",
+     lambda c, t, p: "qubit_count" in show(c) and strip_typed(c)[0] == "cmp" and t is False,
+     "a one-atom register reaches the MPS code, which assumes at least two sites"),
+    ("emu_mps.hamiltonian.HamiltonianMPOFactors.__init__", "emu_mps.hamiltonian.HamiltonianMPOFactors", "dim outside {2, 3}",
+     lambda c, t, p: strip_typed(c)[0] == "cmp" and strip_typed(c)[1] == "in" and show(strip_typed(c)[2]) == "dim" and t is False,
+     "an unsupported number of levels builds a Hamiltonian with 2- or 3-level operator blocks"),
+    ("emu_sv.sv_backend_impl.SVBackendImpl.__init__", "emu_sv.sv_backend_impl.SVBackendImpl",
+     "initial state together with state-preparation errors",
+     lambda c, t, p: "state_prep_error" in show(c) and t is True and any("initial_state is None" in show(c2) and t2 is False for c2, t2 in p.cond_log),
+     "a user initial state is combined with randomly removed atoms"),
+]
+
+
+def rejections(ctx) -> None:
+    prog = ctx.prog
+    for q, cq, label, pred, consequence in REJECTIONS:
+        f = prog.func(q)
+        it = Interp(prog, prog.cls(cq) if cq else None, inline=lambda c, r, d: False, loop_iters=(1,), fork_asserts=True,
+                    max_paths=20000)
+        paths = it.run(f)
+        hit = False
+        for p in paths:
+            if p.status != "raise" or not p.cond_log:
+                continue
+            ev = [e for e in p.events if e.kind == "raise"]
+            if not ev or ev[-1].func != f:
+                continue
+            n = ev[-1].ncond
+            if n >= 1:
+                c, t = p.cond_log[n - 1]
+                if pred(c, t, p):
+                    hit = True
+        ctx.ob("DISPATCH-reject", f"{q}|{label}", f.loc(), hit,
+               f"{f.name} raises for: {label}" if hit else
+               f"{f.name} no longer raises for: {label} — {consequence}")
+    ctx.floor("DISPATCH-reject", len(REJECTIONS))
